@@ -93,6 +93,10 @@ def replay_e2(cex):
 
 
 # ------------------------------------------------------------------ E1
+class PullCap(Exception):
+    pass
+
+
 class Counting:
     """iterator that logs every pull; n=None: unbounded"""
 
@@ -107,6 +111,8 @@ class Counting:
         i = len(self.pulled)
         if self.n is not None and i >= self.n:
             raise StopIteration
+        if self.n is None and i >= 120:
+            raise PullCap('unbounded iterator pulled %d times' % i)    # a drained unbounded iterator would never terminate
         self.pulled.append(i)
         return {'v': i}
 
@@ -169,7 +175,10 @@ def ob_unbounded(start: int, size: int, orphan: int, overlap: int) -> bool:
     """a batch of an unbounded iterator renders and terminates"""
     it = Counting(None)
     shown = []
-    T_LAZY(it=it, st=start, sz=size, orp=orphan, ov=overlap, rec=shown.append)
+    try:
+        T_LAZY(it=it, st=start, sz=size, orp=orphan, ov=overlap, rec=shown.append)
+    except PullCap:
+        return False
     if shown != list(range(start - 1, start - 1 + size)):
         return False
     return in_order(it.pulled) and len(it.pulled) <= start - 1 + size + size + orphan
@@ -178,7 +187,10 @@ def ob_unbounded(start: int, size: int, orphan: int, overlap: int) -> bool:
 def ob_unbounded_next(start: int, size: int, orphan: int, overlap: int) -> bool:
     """the 'next' link mode only needs the look-ahead batch"""
     it = Counting(None)
-    out = T_LAZY_NEXT(it=it, st=start, sz=size, orp=orphan, ov=overlap)
+    try:
+        out = T_LAZY_NEXT(it=it, st=start, sz=size, orp=orphan, ov=overlap)
+    except PullCap:
+        return False
     return out.startswith('N') and in_order(it.pulled) and len(it.pulled) <= start - 1 + size + size + orphan
 
 
@@ -212,7 +224,10 @@ def ob_reverse_expr(r: bool, start: int, size: int, orphan: int, overlap: int) -
     """reverse_expr that evaluates false requests no reversal: the lazy bound applies (a true value is excepted by the statement)"""
     it = Counting(None if not r else 7)
     shown = []
-    T_LAZY_REV(it=it, r=r, st=start, sz=size, orp=orphan, ov=overlap, rec=shown.append)
+    try:
+        T_LAZY_REV(it=it, r=r, st=start, sz=size, orp=orphan, ov=overlap, rec=shown.append)
+    except PullCap:
+        return False
     if r:
         return len(shown) >= 1
     return shown == list(range(start - 1, start - 1 + size)) and in_order(it.pulled) and len(it.pulled) <= start - 1 + size + size + orphan
